@@ -17,7 +17,8 @@ import (
 
 // C06 — retransmitted requests are executed at most once and re-answered identically.
 //
-// Alphabet: First(p, seq, kind) for peers A, B using EQUAL sequence numbers {1,2} (C only sends an
+// Alphabet: First(p, seq, kind) for peers A, B using EQUAL sequence numbers {1,2}, Heartbeats from A2 = A's
+// address with another UDP source port under the same sequence numbers (C only sends an
 // establishment for an unknown node, which produces no response); Dup(p, seq) = byte-identical copy of the
 // datagram sent first under (p, seq); Expire(id) for every entry of the real receive-transaction table (the
 // harness stops the far-future timer and posts the expiry through the public entry point) and for the most
@@ -91,6 +92,18 @@ func (c *c06) Enabled() []seqx.Event {
 			}
 		}
 	}
+	// A2: A's address with another source port, Heartbeats under the same sequence numbers
+	for seq := uint32(1); seq <= a2Seqs(c.tier); seq++ {
+		if r := c.rx[rxKey(PeerA2, seq)]; r != nil && r.alive {
+			x := seqx.Ev("Dup", PeerA2, int64(seq))
+			x.N = fmt.Sprintf("Dup(A:8806,seq %d)", seq)
+			ev = append(ev, x)
+		} else {
+			x := seqx.Ev("First", PeerA2, int64(seq), kHB)
+			x.N = fmt.Sprintf("First(A:8806,seq %d,Heartbeat)", seq)
+			ev = append(ev, x)
+		}
+	}
 	// the unknown peer C: an establishment that produces no response, sequence number 1
 	if r := c.rx[rxKey(2, 1)]; r != nil && r.alive {
 		x := seqx.Ev("Dup", 2, 1)
@@ -131,7 +144,20 @@ func (c *c06) entryIndex(r pfcp.VRx) int64 {
 	return -1
 }
 
-func idxName(i int64) string { return fmt.Sprintf("%c,seq %d", 'A'+int(i/16), i%16) }
+// a2Seqs: A2 uses sequence number 1 (thorough: 1 and 2)
+func a2Seqs(tier string) uint32 {
+	if tier == "thorough" {
+		return 2
+	}
+	return 1
+}
+
+func idxName(i int64) string {
+	if i/16 == PeerA2 {
+		return fmt.Sprintf("A:8806,seq %d", i%16)
+	}
+	return fmt.Sprintf("%c,seq %d", 'A'+int(i/16), i%16)
+}
 
 // realID finds the table id of the entry for (peer, seq); "" if none.
 func (c *c06) realID(p int, seq uint32) string {
